@@ -20,30 +20,30 @@ import (
 // A recursive family of named types. Fields named Decoy* / decoy* would produce a clause if the
 // walker visited them although it must not (no required/exist marker, unexported, time.Time).
 type C04Node struct {
-	Name      string              `valid:"required|m_name"`
-	N         int                 `valid:"ge=1|m_n"`
-	Kid       *C04Node            `valid:"exist"`
-	Kids      []*C04Node          `valid:"exist"`
-	ReqKid    *C04Node            `valid:"required|m_reqkid"`
-	Vals      []C04Leaf           `valid:"required|m_vals"`
-	Arr       [2]C04Leaf          `valid:"exist"`
-	ArrP      [2]*C04Leaf         `valid:"exist"`
-	M         map[string]C04Leaf  `valid:"exist"`
-	MI        map[int]*C04Node    `valid:"exist"`
-	PP        **C04Leaf           `valid:"exist"`
-	Both      *C04Leaf            `valid:"required,exist"`
-	DecoyV    C04Leaf             // no marker: never validated
-	DecoyP    *C04Leaf            `json:"decoy"`
-	DecoyS    []C04Leaf           `json:"decoys"`
-	DecoyM    map[string]*C04Leaf `valid:""`
-	decoyHid  C04Leaf             `valid:"required"`
-	decoyHidP *C04Leaf            `valid:"exist"`
-	DecoyT    time.Time           `valid:"required"`
-	DecoyTP   *time.Time          `valid:"exist"`
-	Ints      []int               `valid:"exist"`
-	C04Emb    `valid:"exist"`      // embedded, marked: validated under the path Parent.C04Emb
-	C04DecoyEmb                    // embedded, unmarked: never validated
-	*C04EmbP  `valid:"required|m_embp"`
+	Name        string              `valid:"required|m_name"`
+	N           int                 `valid:"ge=1|m_n"`
+	Kid         *C04Node            `valid:"exist"`
+	Kids        []*C04Node          `valid:"exist"`
+	ReqKid      *C04Node            `valid:"required|m_reqkid"`
+	Vals        []C04Leaf           `valid:"required|m_vals"`
+	Arr         [2]C04Leaf          `valid:"exist"`
+	ArrP        [2]*C04Leaf         `valid:"exist"`
+	M           map[string]C04Leaf  `valid:"exist"`
+	MI          map[int]*C04Node    `valid:"exist"`
+	PP          **C04Leaf           `valid:"exist"`
+	Both        *C04Leaf            `valid:"required,exist"`
+	DecoyV      C04Leaf             // no marker: never validated
+	DecoyP      *C04Leaf            `json:"decoy"`
+	DecoyS      []C04Leaf           `json:"decoys"`
+	DecoyM      map[string]*C04Leaf `valid:""`
+	decoyHid    C04Leaf             `valid:"required"`
+	decoyHidP   *C04Leaf            `valid:"exist"`
+	DecoyT      time.Time           `valid:"required"`
+	DecoyTP     *time.Time          `valid:"exist"`
+	Ints        []int               `valid:"exist"`
+	C04Emb      `valid:"exist"`     // embedded, marked: validated under the path Parent.C04Emb
+	C04DecoyEmb                     // embedded, unmarked: never validated
+	*C04EmbP    `valid:"required|m_embp"`
 }
 
 type C04Emb struct {
